@@ -562,6 +562,9 @@ static void c08_configure(char which)
     if (which == 'F') { rt_select(&p, 0, "vcam0", "vstore0"); p.video[0].frame_average_count = 2; p.video[0].max_frame_count = 6; } // like A with frame averaging
     VM.store[0].fail_append_at = -1; VM.cam[0].fail_start_at = -1; VM.store[0].fail_start_at = -1;
     if (which == 'G') { rt_select(&p, 0, "vcam0", "vstore0"); VM.cam[0].fail_start_at = vmock_cam(0)->starts; }     // like A, but the camera refuses its next start
+    VM.cam[1].fail_start_at = -1; VM.store[0].fail_set = 0;
+    if (which == 'J') { rt_select(&p, 0, "vcam0", "vstore0"); rt_select(&p, 1, "vcam1", "vstore1"); VM.cam[1].fail_start_at = vmock_cam(1)->starts; } // two streams; the second stream's camera refuses its next start (the first stream is already running then)
+    if (which == 'T') { rt_select(&p, 0, "vcam0", "vstore0"); VM.store[0].fail_set = 1; } // like A, but the storage device rejects the properties
     if (which == 'H') { rt_select(&p, 0, "vcam0", "vstore0"); VM.store[0].fail_start_at = vmock_store(0)->starts; } // like A, but the storage device refuses its next start
     if (which == 'E') { rt_select(&p, 0, "vcam0", "vstore0"); VM.store[0].fail_append_at = 0; }  // like A, but the storage device fails its first append: the workers wind down on their own
     if (which == 'R') { rt_select(&p, 0, "vcam0", "vstore0"); VM.cam[0].fail_set = 1; }  // like A, but the camera rejects the first set call of this configure
@@ -569,7 +572,7 @@ static void c08_configure(char which)
     if (which == 'D') rt_select(&p, 0, "vcam1", "vstore0"); // another camera, same storage
     if (which == '2') { rt_select(&p, 0, "vcam0", "vstore0"); rt_select(&p, 1, "vcam1", "vstore1"); }
     acquire_configure(RT, &p); // may legitimately report an error (e.g. no stream): the oracle is the device monitor
-    VM.cam[0].fail_set = 0;
+    VM.cam[0].fail_set = 0; VM.store[0].fail_set = 0;
     rt_watch_devices(2);
 }
 static void c08_state_oracle(const char* after)
@@ -592,7 +595,7 @@ static void c08_run(void)
     for (const char* p = prog; *p; ++p) {
         char one[2] = { *p, 0 };
         switch (*p) {
-            case 'A': case 'B': case 'C': case 'D': case 'E': case 'F': case 'G': case 'H': case 'R': case '2': case '0': c08_configure(*p); break;
+            case 'A': case 'B': case 'C': case 'D': case 'E': case 'F': case 'G': case 'H': case 'J': case 'T': case 'R': case '2': case '0': c08_configure(*p); break;
             case 's': acquire_start(RT); break;
             case 't': acquire_execute_trigger(RT, 0); break;
             case 'm': {
